@@ -77,11 +77,14 @@ def text_lines(text):
 
 
 def read_text(path):
-    if path.endswith('.gz'):
-        with gzip.open(path, 'rt') as f:
+    try:
+        if path.endswith('.gz'):
+            with gzip.open(path, 'rt') as f:
+                return f.read()
+        with open(path, 'r') as f:
             return f.read()
-    with open(path, 'r') as f:
-        return f.read()
+    except Exception as e:
+        raise WrittenFileUnreadable('%s: %s' % (type(e).__name__, e))
 
 
 LAYOUTS = ['c', 'fortran', 'transpose', 'reorder', 'slice']
@@ -170,7 +173,23 @@ def describe_layout(a):
 # --------------------------------------------------------------------------
 # executing one case on the real dadi
 # --------------------------------------------------------------------------
+class WrittenFileUnreadable(Exception):
+    pass
+
+
 def execute(op, inp, rid, tmpd):
+    """Run one case; a file written by dadi that cannot even be read back as text (e.g. a corrupt gzip stream) is an
+    observation about the writer, not a failure of the harness."""
+    try:
+        return _execute(op, inp, rid, tmpd)
+    except WrittenFileUnreadable as e:
+        gz = bool(inp.get('gz'))
+        site = {'roundtrip': 'Spectrum.to_file/from_file', 'array_roundtrip': 'Numerics.array_to_file/array_from_file'}.get(op, op)
+        return {'id': rid, 'op': op, 'in': inp, 'site': site + ('[gzip]' if gz else ''),
+                'out': {'raised': 'WrittenFileUnreadable', 'stage': 'to_file', 'msg': str(e)[:100]}}
+
+
+def _execute(op, inp, rid, tmpd):
     import dadi
     from dadi import Numerics
     rec = {'id': rid, 'op': op, 'in': inp}
